@@ -486,6 +486,23 @@ func main() {
 		switch o.kind {
 		case "ii":
 			a, b = randInt(r), randInt(r)
+			if (o.name == "imul" || o.name == "imulraw") && r.Chance(1, 5) {
+				// operands whose bit lengths add up to 255..257: the product straddles the 255-bit bound
+				ka := 64 + r.Intn(129)
+				kb := 255 + r.Intn(3) - ka
+				a = new(big.Int).SetBit(r.Bits(ka), ka-1, 1)
+				b = new(big.Int).SetBit(r.Bits(kb), kb-1, 1)
+				if r.Bool() { // all-ones operands: the largest products for their lengths
+					a = new(big.Int).Sub(pow2(ka), one)
+					b = new(big.Int).Sub(pow2(kb), one)
+				}
+				if r.Bool() {
+					a.Neg(a)
+				}
+				if r.Bool() {
+					b.Neg(b)
+				}
+			}
 			if r.Chance(1, 8) && b.Sign() != 0 { // exact multiples for quo/mod
 				a = new(big.Int).Mul(b, big.NewInt(int64(r.Intn(7)-3)))
 				if !inInt(a) {
